@@ -7,7 +7,7 @@ import BumpProof.Lemmas.MemFresh
 
 set_option linter.unusedSimpArgs false
 
-namespace Arena
+namespace Arena.Mem
 open Rs
 
 theorem freeRange_chunk {cfg : Cfg} {s : State} {i : Nat} {c : Chunk}
